@@ -874,6 +874,9 @@ class GenMatch(Gen):
                 chosen = [self.pick(["a", "zz"])] if not aim else (keys[:1] or ["zz"])
             entries = []
             for key in chosen:
+                if self.chance(0.25):
+                    entries.append((key, "_"))      # `key as _`: presence is still required, nothing is bound
+                    continue
                 n = self.fresh("p"); names.append((n, "opaque")); entries.append((key, n))
             return ("mpat", entries)
         return ("ignore",)
